@@ -27,6 +27,10 @@ OBJS = ["sdfile", "sds0", "sds1", "dim0", "dim1", "grfile", "ri", "vs", "vsf", "
 SDK = {"sdfile", "sds0", "sds1", "dim0", "dim1"}
 
 
+NCCLASS = {"int8": "b", "uint8": "b", "char8": "c", "int16": "s", "uint16": "s", "int32": "l", "uint32": "l",
+           "float32": "f", "float64": "d"}
+
+
 def nontrivial(labels):
     return bool(NT_LABELS & set(labels))
 
@@ -75,8 +79,12 @@ def strategy_(draw, tier):
         elif c < 65:
             ops.append(["dimname", draw(st.integers(0, 1)), draw(st.sampled_from(["dx", "dy", "shared", "shared", "latitude", "lat", "la"]))])   # incl. names that are prefixes of one another
         elif c < 70:
-            ops.append(["dimscale", draw(st.integers(0, 1)), draw(st.sampled_from(["int32", "float32", "uint8"])),
+            ops.append(["dimscale", draw(st.integers(0, 1)), draw(st.sampled_from(["int32", "float32", "uint8", "uint32", "int8", "int16", "uint16"])),
                         draw(st.integers(0, 99))])
+            twin = {"int32": "uint32", "uint32": "int32", "int16": "uint16", "uint16": "int16", "int8": "uint8", "uint8": "int8"}
+            if ops[-1][2] in twin and draw(st.integers(0, 2)) == 0:
+                # the same scale re-set with the other signedness of the same width
+                ops.append(["dimscale", ops[-1][1], twin[ops[-1][2]], draw(st.integers(0, 99))])
         elif c < 74:
             ops.append(["dimstrs", draw(st.integers(0, 1)), draw(st.integers(0, 99))])
         elif c < 79:
@@ -300,6 +308,11 @@ def run_case(case):
                 if not writable:
                     continue
                 eff = 0 if (dimnames[0] is not None and dimnames[0] == dimnames[1]) else di
+                if scale_nt.get(eff, nt) != nt and NCCLASS[scale_nt[eff]] == NCCLASS[nt]:
+                    # same width, other signedness: the coordinate variable keeps its netCDF type, the re-set is
+                    # accepted and the scale must then be reported with the new number type
+                    scale_nt[eff] = nt
+                    labels.add("scale_retype_same_width")
                 if scale_nt.get(eff, nt) != nt:
                     # known finding C10-dimscale-retype: changing the number type of an existing scale fails
                     # AND damages the old scale; excluded by construction (probed from the corpus)
@@ -314,6 +327,7 @@ def run_case(case):
                 S("dimscale", p.call("i", "SDsetdimscale", V("d%d" % di), 4, sm.NT[nt][0], data.tobytes()), di, nt,
                   data.tobytes())
                 S("getscale", p.call("i", "SDgetdimscale", V("d%d" % di), Out(4 * 8)), di)
+                S("scalent", p.call("i", "SDdiminfo", V("d%d" % di), OutS(300), Out(4), Out(4), Out(4)), di)
             elif k == "dimstrs":
                 _, di, seed = op
                 if not writable:
@@ -518,6 +532,13 @@ def run_case(case):
                         raise Fail("SDsetdimscale failed")
                     pre[key] = a[2]
                     pre[("scalent",) + key[1:]] = a[1]
+                elif role == "scalent":
+                    key = ("scalent", 0 if shared else a[0])
+                    if key in pre:
+                        gnt = struct.unpack("=i", r.bufs[2])[0]
+                        if r.ret != 0 or gnt != sm.NT[pre[key]][0]:
+                            raise Fail("SDdiminfo reports another number type than the scale was last set with",
+                                       expected=sm.NT[pre[key]][0], observed=gnt, ret=r.ret)
                 elif role == "getscale":
                     if ("scale", 0 if shared else a[0]) not in pre:
                         continue
